@@ -89,7 +89,18 @@ class Writer:
             if val in (float('inf'), float('-inf')): return list(b'INF' if val > 0 else b'-INF')
         digits = f64_display(ex, val)
         # spelling: '_' separator after the first integer digit when there are >= 2 integer digits; exponent form for integers
-        k = s.ch(3)
+        k = s.ch(4 if (not is_sym(val) and val == val and val not in (float('inf'), float('-inf')) and val != 0) else 3)
+        if k == 3:
+            # scientific notation of the same decimal: d.ddd E exp (any decimal text that denotes the value is a legal spelling)
+            from decimal import Decimal
+            sign, dg, e10 = Decimal(repr(float(val))).as_tuple()
+            dg = list(dg)
+            while len(dg) > 1 and dg[-1] == 0: dg.pop(); e10 += 1
+            exp = len(dg) - 1 + e10
+            mant = str(dg[0]) + ('.' + ''.join(map(str, dg[1:])) if len(dg) > 1 else '')
+            style = s.ch(3)
+            text = ('-' if sign else '') + mant + ('E' if style != 1 else 'e') + ('+' if (style == 2 and exp >= 0) else '') + str(exp)
+            digits = list(text.encode())
         ip_end = len(digits)
         for j, d in enumerate(digits):
             if not is_sym(d) and d == 46: ip_end = j; break
